@@ -81,7 +81,9 @@ def pdf_str(s):
 
 
 def gen_doc(r):
-    tu = {0x01: "\x01", 0x02: "\x0b", 0x03: "\x1f", 0x04: "中", 0x05: "\U0001f600", 0x06: "\t", 0x07: "\x7f", 0x08: "\x85", 0x10: "ffi"}
+    tu = {0x01: "\x01", 0x02: "\x0b", 0x03: "\x1f", 0x04: "中", 0x05: "\U0001f600", 0x06: "\t", 0x07: "\x7f", 0x08: "\x85", 0x10: "ffi",
+          # glyphs whose text is several characters with a control character first, last or in the middle
+          0x11: "C\x02", 0x12: "<\x1f&", 0x13: "f\x0cl", 0x14: "\x01B"}
     use_ctrl = r.random() < 0.3
     fontname = r.choice(["Helv", 'A&B', 'Q<"x', "it's", "n>1", "É"])
     formname = r.choice(["Fm1", 'F&m', 'F"<1', "F'1", "x>y"])
@@ -103,7 +105,7 @@ def gen_doc(r):
                 special = True
                 s = pdf_str(words)
                 if use_ctrl and r.random() < 0.6:
-                    s = b"<" + bytes(r.choice([1, 2, 3, 4, 5, 6, 7, 8, 0x10, 0x41]) for _ in range(r.randint(1, 4))).hex().encode() + b">"
+                    s = b"<" + bytes(r.choice([1, 2, 3, 4, 5, 6, 7, 8, 0x10, 0x11, 0x12, 0x13, 0x14, 0x41]) for _ in range(r.randint(1, 4))).hex().encode() + b">"
                 parts.append(b"BT /F1 %d Tf %d %d Td %s Tj ET" % (r.choice([8, 10, 12]), r.randint(20, 500), r.randint(50, 750), s))
             elif k < 0.7:
                 op = r.choice([b"%d %d m %d %d l S", b"%d %d %d %d re f", b"%d %d m %d %d l 300 300 l S"])
